@@ -390,6 +390,16 @@ func runC15(c *Ctx) {
 	}
 	r.Floor("W1", "write sites", nsites, 25)
 	r.Floor("W1", "packages with write sites", len(pk), 5)
+	// "without panicking": the code that runs when a write fails (and everything else in the functions that
+	// write) has no reachable panic (C09's R09.P obligations of the functions that hold a write site)
+	r.Rule("W2", "the functions that write cannot panic, on the error path or elsewhere")
+	holders := map[string]bool{}
+	for _, o := range r.Obs {
+		if o.Rule == "W1" {
+			holders[o.Func] = true
+		}
+	}
+	importPremises(c, "W2", "no-panic premise ", "a panic on the way out replaces the error the caller should get", func(o *Ob) bool { return o.Rule == "R09.P" && holders[o.Func] }, func() { runC09(c) })
 	// W0: the five renderers
 	n := 0
 	for _, rel := range []string{"csv", "html", "json", "markdown", "texttable"} {
